@@ -7,4 +7,4 @@ Extraction Language OCaml.
 Extraction "model.ml" Tree.x_write_tree Tree.x_load_tree Tree.x_fetch_tree Tree.x_file_write
   Tree.x_file_load Tree.x_tree_msg_of Tree.x_load_failures Tree.x_file_key Tree.cas_del Tree.cas_get
   Tree.wf_treeb Tree.names_ok Tree.normalise Tree.depth Tree.file_restore_exec
-  Tree.file_restore_possible Tree.utf8_valid.
+  Tree.utf8_valid.
